@@ -22,7 +22,7 @@ type skelRow struct {
 }
 
 func (c *Ctx) successSkeletons(fn *ssa.Function) ([]skelRow, string) {
-	paths, complete := c.enumPaths(fn, 20000)
+	paths, complete := c.enumPathsInl(fn, 20000, c.serKeep()...)
 	if !complete {
 		return nil, "too many paths in " + fnName(fn)
 	}
@@ -208,20 +208,11 @@ func ruleSQLOPMAP(c *Ctx, r *Report) {
 	}
 	// Like: the regexp-vs-wildcard branch is taken on a /…/ pattern
 	if e := pt.Eff["expr.Like"]; e != nil && e.Fn != nil {
-		rows, _ := c.successSkeletons(e.Fn)
-		for _, row := range rows {
-			if strings.Contains(row.Str, " ~ ") {
-				slash := 0
-				for _, a := range row.Atoms {
-					if a.Kind == "cmp" && a.Op == "==" && a.Val == "47" {
-						slash++
-					}
-				}
-				if slash >= 2 {
-					r.ok(rule, "expr.Like|regexp-test", c.instrPos(row.P.Ret), "~ chosen when the pattern is /…/")
-				} else {
-					r.bad(rule, "expr.Like|regexp-test", c.instrPos(row.P.Ret), "the regular-expression operator ~ is chosen without testing that the pattern is delimited by slashes")
-				}
+		for _, t := range c.regexpTests(e.Fn) {
+			if t.ok {
+				r.ok(rule, "expr.Like|regexp-test", t.pos, "~ chosen when the pattern is /…/")
+			} else {
+				r.bad(rule, "expr.Like|regexp-test", t.pos, "the regular-expression operator ~ is chosen without testing that the pattern is delimited by slashes")
 			}
 		}
 	}
@@ -714,10 +705,51 @@ func ruleSQLIDLEN(c *Ctx, r *Report) {
 
 // wrapOps: operators for which Render/RenderParam may wrap a non-simple operand in parentheses.
 func (c *Ctx) wrapOps(fn *ssa.Function) (wrap map[string]bool, sites int) {
+	memo := "wrapops:" + fnName(fn)
+	type res struct {
+		wrap  map[string]bool
+		sites int
+	}
+	if v, ok := c.roles[memo]; ok {
+		return v.(res).wrap, v.(res).sites
+	}
 	wrap = map[string]bool{}
-	opKey := ""
-	for _, b := range fn.Blocks {
-		for _, in := range b.Instrs {
+	dr := c.driverRoles()
+	// path-based, helpers inlined: an operator counts as wrapped when, on the paths where it is possible,
+	// a non-simple operand is always put in parentheses — whether the test and the concatenation sit in
+	// the renderer or behind a helper it calls
+	paths, complete := c.enumPathsInl(fn, 40000, c.serKeep()...)
+	if !complete {
+		c.roles[memo] = res{wrap, 0}
+		return wrap, 0
+	}
+	if len(fn.Params) < 2 {
+		return wrap, 0
+	}
+	opKey := c.key(fn.Params[len(fn.Params)-1], nil) + ".Op"
+	siteSet := map[ssa.Instruction]bool{}
+	wrapped, bare := map[string]bool{}, map[string]bool{}
+	all := map[string]bool{}
+	for name := range c.operatorConsts() {
+		all["expr."+name] = true
+	}
+	for _, p := range paths {
+		if p.Ret == nil {
+			continue
+		}
+		// non-simple operands on this path (by the simplicity helper's argument) and wrapped ones
+		nonSimple := map[string]bool{}
+		for _, a := range p.Atoms {
+			if a.Kind == "call" && !a.Pos && a.Fn == dr.IsSimple {
+				for _, side := range []string{"Left", "Right"} {
+					if strings.HasSuffix(a.Val, "."+side) {
+						nonSimple[side] = true
+					}
+				}
+			}
+		}
+		got := map[string]bool{}
+		for _, in := range p.Instrs {
 			bo, ok := in.(*ssa.BinOp)
 			if !ok || !isStringType(bo.Type()) {
 				continue
@@ -725,27 +757,73 @@ func (c *Ctx) wrapOps(fn *ssa.Function) (wrap map[string]bool, sites int) {
 			if s, ok := constStringVal(bo.X); !ok || s != "(" {
 				continue
 			}
-			sites++
-			atoms := c.domAtoms(b)
-			// the operator key: `$1.Op`
-			for _, a := range atoms {
-				if a.Kind == "cmp" && strings.HasSuffix(a.Subj, ".Op") && strings.HasPrefix(a.Val, "expr.") {
-					opKey = a.Subj
+			siteSet[in] = true
+			yk := c.key(bo.Y, p.Env)
+			for _, side := range []string{"Left", "Right"} {
+				if strings.Contains(yk, "."+side+")") {
+					got[side] = true
 				}
 			}
-			if opKey == "" {
-				// wrapping is unconditional
-				for name := range c.operatorConsts() {
-					wrap["expr."+name] = true
+		}
+		ops := c.possibleOps(p.Atoms, opKey)
+		if len(ops) == 0 {
+			hasOpAtom := false
+			for _, a := range p.Atoms {
+				if strings.Contains(a.Subj, opKey) || strings.Contains(a.Val, opKey) {
+					hasOpAtom = true
 				}
-				continue
 			}
-			for o := range c.possibleOps(atoms, opKey) {
-				wrap[o] = true
+			if !hasOpAtom {
+				ops = all
+			}
+		}
+		for _, side := range []string{"Left", "Right"} {
+			switch {
+			case got[side]:
+				for o := range ops {
+					wrapped[o] = true
+				}
+			case nonSimple[side]:
+				for o := range ops {
+					bare[o] = true
+				}
+			}
+		}
+		if len(nonSimple) == 0 && len(got) == 0 {
+			// a path that never asks: exempt for its operators unless another path asks for the same ones;
+			// only paths that reach the render function matter (error returns do not)
+			reaches := false
+			for _, in := range p.Instrs {
+				if call, ok := in.(*ssa.Call); ok && call.Call.StaticCallee() == nil && !call.Call.IsInvoke() {
+					if _, isB := call.Call.Value.(*ssa.Builtin); !isB {
+						reaches = true
+					}
+				}
+			}
+			if reaches {
+				// exempt only if the simplicity test was skipped for both operands
+				asked := false
+				for _, a := range p.Atoms {
+					if a.Kind == "call" && a.Fn == dr.IsSimple {
+						asked = true
+					}
+				}
+				if !asked {
+					for o := range ops {
+						bare[o] = true
+					}
+				}
 			}
 		}
 	}
-	return
+	for o := range wrapped {
+		if !bare[o] {
+			wrap[o] = true
+		}
+	}
+	sites = len(siteSet)
+	c.roles[memo] = res{wrap, sites}
+	return wrap, sites
 }
 
 func (c *Ctx) simpleOps(fn *ssa.Function) (ops []string, other []string, err string) {
@@ -973,7 +1051,7 @@ func (c *Ctx) rangeTableOf(fn *ssa.Function) *rangeTable {
 	helperRe := regexp.MustCompile(`\{driver\.[A-Za-z0-9_]+\(MIN,MAX\)#([01])(:[^}]*)?\}`)
 	for _, row := range rows {
 		rr := rangeRow{P: row.P, Excl: 0, MinOpen: -1, MaxOpen: -1, Stage: "string", Raw: row.Str}
-		open, closeP := -1, -1 // tri-state: -1 unknown, 0 no, 1 yes
+		open, closeP := -1, -1   // tri-state: -1 unknown, 0 no, 1 yes
 		intErr, floatErr := 0, 0 // 1 = nil (succeeded), 2 = non-nil
 		for _, a := range row.Atoms {
 			subj := norm(a.Subj)
@@ -1065,20 +1143,19 @@ func b2i(b bool) int {
 
 // helperParsesInt: the helper call behind key parses integers (strconv.Atoi / ParseInt) rather than floats.
 func (c *Ctx) helperParsesInt(fn *ssa.Function, key string) bool {
-	for _, b := range fn.Blocks {
-		for _, in := range b.Instrs {
-			call, ok := in.(*ssa.Call)
-			if !ok || call.Call.StaticCallee() == nil || !inModule(call.Call.StaticCallee()) {
-				continue
-			}
-			if !strings.HasPrefix(key, fnName(call.Call.StaticCallee())+"(") {
-				continue
-			}
-			h := call.Call.StaticCallee()
-			return c.callsNamed(h, "strconv.Atoi") || c.callsNamed(h, "strconv.ParseInt")
+	var best *ssa.Function
+	for _, h := range c.Funcs {
+		if !inModule(h) || fnPkgPath(h) != fnPkgPath(fn) {
+			continue
+		}
+		if strings.HasPrefix(key, fnName(h)+"(") && (best == nil || len(fnName(h)) > len(fnName(best))) {
+			best = h
 		}
 	}
-	return false
+	if best == nil {
+		return false
+	}
+	return c.usesNamed(best, "strconv.Atoi") || c.usesNamed(best, "strconv.ParseInt")
 }
 
 // classify a (row, combo) against the oracle; returns "" if correct, else a defect class.
@@ -1335,13 +1412,23 @@ func ruleMARKER(c *Ctx, r *Report) {
 	for _, f := range fns {
 		seen[f] = true
 	}
-	for _, f := range append([]*ssa.Function(nil), fns...) {
+	for i := 0; i < len(fns); i++ { // transitively, within the driver package
+		f := fns[i]
 		for _, b := range f.Blocks {
 			for _, in := range b.Instrs {
 				if call, ok := in.(*ssa.Call); ok {
-					if h := call.Call.StaticCallee(); h != nil && fnPkgPath(h) == pkgDriver && !seen[h] {
+					if h := call.Call.StaticCallee(); h != nil && fnPkgPath(h) == pkgDriver && !seen[h] && h.Signature.Recv() == nil {
 						seen[h] = true
 						fns = append(fns, h)
+					}
+				}
+				// function values handed on (generic helpers taking the parse function)
+				for _, op := range in.Operands(nil) {
+					if mc, ok := (*op).(*ssa.MakeClosure); ok {
+						if h, ok := mc.Fn.(*ssa.Function); ok && !seen[h] {
+							seen[h] = true
+							fns = append(fns, h)
+						}
 					}
 				}
 			}
@@ -1371,7 +1458,7 @@ func ruleMARKER(c *Ctx, r *Report) {
 			}
 		}
 	}
-	r.floor(rule, "marker comparisons", n, 8)
+	r.floor(rule, "marker comparisons", n, 4)
 }
 
 // SPLIT-SAFE (C02/C03): the range functions re-split the already serialised boundary text. That is
@@ -1425,73 +1512,90 @@ func ruleSPLITSAFE(c *Ctx, r *Report) {
 	var shapes []string
 	for _, fn := range fns {
 		n := 0
-		for _, b := range fn.Blocks {
-			for _, in := range b.Instrs {
+		// helpers of the range function are read in place (inlined paths), so the split may sit in a helper
+		paths, _ := c.enumPathsInl(fn, 20000)
+		var splits []*ssa.Call
+		seenSplit := map[*ssa.Call]bool{}
+		for _, p := range paths {
+			for _, in := range p.Instrs {
 				call, ok := in.(*ssa.Call)
-				if !ok {
+				if !ok || seenSplit[call] {
 					continue
 				}
 				name := calleeFullName(call)
 				if !strings.HasPrefix(name, "strings.Split") && name != "strings.Cut" && name != "strings.Fields" && name != "strings.FieldsFunc" {
 					continue
 				}
-				n++
-				key := fnName(fn) + "|" + name
-				pos := c.instrPos(in)
-				shape := name
-				okSplit := false
-				switch name {
-				case "strings.Split":
+				seenSplit[call] = true
+				splits = append(splits, call)
+			}
+		}
+		sort.Slice(splits, func(i, j int) bool { return splits[i].Pos() < splits[j].Pos() })
+		for _, call := range splits {
+			in := ssa.Instruction(call)
+			name := calleeFullName(call)
+			n++
+			key := fnName(fn) + "|" + name
+			pos := c.instrPos(in)
+			shape := name
+			okSplit := false
+			switch name {
+			case "strings.Split":
+				okSplit = true
+			case "strings.SplitN":
+				if lim, ok := constIntVal(call.Call.Args[2]); ok && lim < 0 {
 					okSplit = true
-				case "strings.SplitN":
-					if lim, ok := constIntVal(call.Call.Args[2]); ok && lim < 0 {
-						okSplit = true
-					}
-					shape += fmt.Sprintf("(n=%s)", c.key(call.Call.Args[2], nil))
 				}
-				sep, isC := "", false
-				if len(call.Call.Args) >= 2 {
-					sep, isC = constStringVal(call.Call.Args[1])
-				}
-				shape += fmt.Sprintf("(sep=%q)", sep)
-				shapes = append(shapes, shape)
-				if !okSplit {
-					r.bad(rule, key+"|bounded", pos, fmt.Sprintf("%s splits the serialised range text with %s: a bounded or first-match split takes a separator that occurs inside the lower bound's value for the boundary between the two ends, producing malformed SQL instead of an error", fnName(fn), shape))
+				shape += fmt.Sprintf("(n=%s)", c.key(call.Call.Args[2], nil))
+			}
+			sep, isC := "", false
+			if len(call.Call.Args) >= 2 {
+				sep, isC = constStringVal(call.Call.Args[1])
+			}
+			shape += fmt.Sprintf("(sep=%q)", sep)
+			shapes = append(shapes, shape)
+			if !okSplit {
+				r.bad(rule, key+"|bounded", pos, fmt.Sprintf("%s splits the serialised range text with %s: a bounded or first-match split takes a separator that occurs inside the lower bound's value for the boundary between the two ends, producing malformed SQL instead of an error", fnName(fn), shape))
+				continue
+			}
+			if !isC || sep == "" {
+				r.bad(rule, key+"|separator", pos, "the separator is not a constant")
+				continue
+			}
+			mn, mx := sepCount(sep)
+			if mn != 1 || mx != 1 {
+				r.bad(rule, key+"|separator", pos, fmt.Sprintf("the separator %q occurs %d..%d times in the constant text of the serialised boundary; it must occur exactly once", sep, mn, mx))
+				continue
+			}
+			// part count checked: every success path through the split has len(parts) == 2
+			checked := false
+			for _, p := range paths {
+				if p.Ret == nil {
 					continue
 				}
-				if !isC || sep == "" {
-					r.bad(rule, key+"|separator", pos, "the separator is not a constant")
-					continue
-				}
-				mn, mx := sepCount(sep)
-				if mn != 1 || mx != 1 {
-					r.bad(rule, key+"|separator", pos, fmt.Sprintf("the separator %q occurs %d..%d times in the constant text of the serialised boundary; it must occur exactly once", sep, mn, mx))
-					continue
-				}
-				// part count checked: a dominating/following len(parts) != 2 → error
-				checked := false
-				partsK := c.key(call, nil)
-				paths, _ := c.enumPaths(fn, 20000)
-				for _, p := range paths {
-					if p.Ret == nil {
-						continue
-					}
-					nres := len(p.Ret.Results)
-					if isNilConst(c.resolve(p.Ret.Results[nres-1], p.Env)) {
-						lo, hi := lenRange(p.Atoms, partsK)
-						if lo != 2 || hi != 2 {
-							checked = false
-							goto done
-						}
-						checked = true
+				through := false
+				for _, pin := range p.Instrs {
+					if pin == in {
+						through = true
 					}
 				}
-			done:
-				if checked {
-					r.ok(rule, key, pos, fmt.Sprintf("unbounded split on %q (once in the skeleton); every success path has exactly two parts", sep))
-				} else {
-					r.bad(rule, key+"|count", pos, fnName(fn)+" can succeed with a part count other than two")
+				if !through {
+					continue
 				}
+				nres := len(p.Ret.Results)
+				if isNilConst(c.resolve(p.Ret.Results[nres-1], p.Env)) {
+					lo, hi := lenRange(p.Atoms, c.key(call, p.Env))
+					if lo != 2 || hi != 2 {
+						checked = false
+						break
+					}
+					checked = true
+				}
+			}
+			if checked {
+				r.ok(rule, key, pos, fmt.Sprintf("unbounded split on %q (once in the skeleton); every success path has exactly two parts", sep))
+			} else {
+				r.bad(rule, key+"|count", pos, fnName(fn)+" can succeed with a part count other than two")
 			}
 		}
 		if n == 0 {
